@@ -120,13 +120,13 @@ Definition do_slice (s : rstate) (n k : Z) : rstate :=
                       && negb (Z.eqb k 0 && Z.leb (Z.of_nat (List.length (rows s))) n)) |}.
 
 (* groups in order of first appearance *)
-Fixpoint group_rows (key : row -> list value) (rs : list row) (acc : list (list value * list row))
-  : list (list value * list row) :=
+Fixpoint group_rows {A : Type} (key : A -> list value) (rs : list A) (acc : list (list value * list A))
+  : list (list value * list A) :=
   match rs with
   | [] => map (fun g => (fst g, rev (snd g))) (rev acc)
   | r :: rs' =>
       let k := key r in
-      let fix add (a : list (list value * list row)) :=
+      let fix add (a : list (list value * list A)) :=
           match a with
           | [] => None
           | (k', g) :: a' =>
